@@ -1,8 +1,8 @@
 SPECIFICATION Spec
 CONSTANTS
-  Vary = {"mainpos", "mainfirst", "keep", "fn"}
-  Fns = {"Println", "Sscan"}
-  Shs = {"-"}
+  Vary = {"fn", "sh", "shk"}
+  Fns = {"Println", "Sprint"}
+  Shs = {"-", "echo", "sprint", "fmt"}
   ScopeAware = TRUE
   LambdaParamsScoped = FALSE
   BareReturnLambda2 = FALSE
